@@ -59,7 +59,8 @@ func (c *Ctx) isLocationText(fd *ast.FuncDecl, e ast.Expr, defs map[types.Object
 	case *ast.Ident:
 		ds := defs[c.objOf(x)]
 		if len(ds) == 0 {
-			return false
+			// a string parameter of an unexported function: a location when every call site hands one over
+			return c.paramIsLocationText(fd, c.objOf(x), depth)
 		}
 		for _, d := range ds {
 			if d == nil || !c.isLocationText(fd, d, defs, depth+1) {
@@ -346,4 +347,48 @@ func (c *Ctx) slashSuffixTest(e ast.Expr) (string, bool) {
 		return "", false
 	}
 	return exprString(unparen(call.Args[0])), true
+}
+
+// paramIsLocationText: o is a parameter of the unexported function fd, and at every call of fd in the package
+// the argument in that position is a location text.
+func (c *Ctx) paramIsLocationText(fd *ast.FuncDecl, o types.Object, depth int) bool {
+	if o == nil || fd.Recv != nil || fd.Name.IsExported() {
+		return false
+	}
+	idx := -1
+	for i := 0; ; i++ {
+		p := c.paramObj(fd, i)
+		if p == nil {
+			break
+		}
+		if p == o {
+			idx = i
+		}
+	}
+	f, _ := c.Info.Defs[fd.Name].(*types.Func)
+	if idx < 0 || f == nil {
+		return false
+	}
+	sites, all := 0, true
+	for _, g := range c.allFuncDecls() {
+		if g.Body == nil {
+			continue
+		}
+		var gdefs map[types.Object][]ast.Expr
+		ast.Inspect(g.Body, func(n ast.Node) bool {
+			call, ok := n.(*ast.CallExpr)
+			if !ok || c.callee(call) != types.Object(f) || idx >= len(call.Args) {
+				return true
+			}
+			if gdefs == nil {
+				gdefs = c.localDefs(g)
+			}
+			sites++
+			if !c.isLocationText(g, call.Args[idx], gdefs, depth+1) {
+				all = false
+			}
+			return true
+		})
+	}
+	return sites > 0 && all
 }
